@@ -28,6 +28,7 @@ From Soy Require Import Model.Bytes Model.Num Model.Values Model.Outcome Model.A
   Model.Escape Model.Token Model.ExprParser Model.ExprTrans Spec.Expr Spec.ExprSyntax Generated.Tables
   Proofs.EvalProofs Proofs.EvalFuncProofs Proofs.EvalMainProofs Proofs.ExprParserRules Proofs.ExprParserProofs Proofs.EvalSyntaxProofs Proofs.EvalTotalProofs.
 From Soy Require Import Model.AstPrint Model.Lexer Model.Parser Proofs.LexPrintMain Proofs.LexParseText Proofs.EvalTextProofs Proofs.InterpPos.
+From Soy Require Proofs.FloatRoundSpec Proofs.FloatFlocq Proofs.FloatFlocqDiv Proofs.FloatRtMain Proofs.FloatRtPrint Proofs.FloatRtLex.
 Open Scope N_scope.
 
 (* ---- the evaluator ---- *)
@@ -254,8 +255,54 @@ Proof.
   injection H as <-. split; [eauto | split; eauto].
 Qed.
 
-(* ---- non-vacuity: concrete instances evaluated by both sides ---- *)
+(* ---- the float domain: rounding, printing, reading back (Proofs/FloatRoundSpec.v, FloatFlocq.v, FloatRt*.v) ---- *)
+(* Num.round53 -- the rounding step of + - * / and of the conversion of an integer -- returns the multiple of the
+   last place kept that is nearest to the exact result, the even mantissa at a tie, with 53 bits (integers only) *)
+Theorem C01_round_nearest_even : forall M E : Z,
+  let '(m, e) := round53 M E in
+  exists sh, (0 <= sh /\ e = E + sh /\
+    2 * Z.abs (M - m * 2 ^ sh) <= 2 ^ sh /\
+    (2 * Z.abs (M - m * 2 ^ sh) = 2 ^ sh -> Z.even m = true) /\
+    Z.abs m <= 2 ^ 53 /\ (0 < sh -> 2 ^ 52 <= Z.abs m) /\ (sh = 0 -> m = M))%Z.
+Proof. exact FloatRoundSpec.round53_spec. Qed.
+Print Assumptions C01_round_nearest_even.
 
+(* the same against Flocq (a statement over the reals: Print Assumptions lists the axioms of Coq's Reals and
+   Classical_Prop.classic, nothing of Flocq's own): round53 is round radix2 (FLX_exp 53) ZnearestE, and the results of
+   fl_add_r, fl_sub_r, fl_mul_r, fl_of_int are that rounding of the exact sum, difference, product, integer
+   (FloatFlocq.ff_correctly_rounded spells the five statements out) *)
+Theorem C01_float_ops_correctly_rounded : FloatFlocq.ff_correctly_rounded.
+Proof. exact FloatFlocq.ff_correctly_rounded_holds. Qed.
+Print Assumptions C01_float_ops_correctly_rounded.
+
+(* and fl_div_r -- the quotient to 56 or more bits with a sticky bit for the remainder, then round53 -- is that rounding of
+   the exact quotient (FloatFlocqDiv.v, through Flocq's Fdiv_core: mantissas non-zero, as in every FFin of the model) *)
+Theorem C01_float_div_correctly_rounded : FloatFlocqDiv.ff_div_correctly_rounded.
+Proof. exact FloatFlocqDiv.ff_div_correctly_rounded_holds. Qed.
+Print Assumptions C01_float_div_correctly_rounded.
+
+(* strconv 'g' -1 (Num.fl_to_string) answers on every float of the model, and strconv.ParseFloat's correctly rounded
+   conversion (NumLit.parse_float_round) reads the text back as the same float: no float hypothesis is left in
+   syntax_ok (float_ok f is the shape condition fl_in_window f) *)
+Theorem C01_float_text_roundtrip : forall x, FloatRtMain.fl_in_window x ->
+  exists s, fl_to_string x = Some s /\ NumLit.parse_float_round s = NumLit.FRVal x.
+Proof.
+  intros x H. destruct (FloatRtMain.fl_to_string_total x H) as (s & Hs). exists s. split; [exact Hs|].
+  exact (FloatRtMain.fl_to_string_roundtrip x s (FloatRtMain.rt_window_norm x H) Hs).
+Qed.
+Print Assumptions C01_float_text_roundtrip.
+
+Theorem C01_float_literal_condition : forall f, float_ok f <-> FloatRtMain.fl_in_window f.
+Proof. exact FloatRtPrint.float_ok_iff_window. Qed.
+Print Assumptions C01_float_literal_condition.
+
+(* and lex_ok's float clause (the printed text is one float item for the scanner) holds for every such float: neither
+   syntax_ok nor lex_ok of C01_text_string_to_value restricts the floats of an expression beyond their shape *)
+Theorem C01_float_lex_ok : forall p f, float_ok f -> LexPrintMain.lex_ok (NFloat p f).
+Proof. intros p f [Hn _]. exact (FloatRtLex.lex_ok_float p f Hn). Qed.
+Print Assumptions C01_float_lex_ok.
+
+(* ---- non-vacuity: concrete instances evaluated by both sides ---- *)
 Definition ex_env : list (bstr * value) :=
   [(b "a", VInt 2); (b "l", VList 5 [VStr (b "p"); VStr (b "q<")]); (b "m", VMap 6 [([], VInt 7); (b "k", VNull)])].
 
@@ -276,7 +323,13 @@ Proof. repeat split; vm_compute; reflexivity. Qed.
 Example C01_nonvacuous_syntax : syntax_ok ex_expr.
 Proof.
   cbn [syntax_ok ex_expr allP acc_ok]. unfold float_ok, key_ok.
-  repeat split. eexists. split; [vm_compute; reflexivity | vm_compute; reflexivity].
+  repeat match goal with
+         | |- _ /\ _ => split
+         | |- True => exact I
+         | |- exists _, _ => eexists
+         | |- fl_finite_norm _ => vm_compute; reflexivity
+         | |- _ = _ => vm_compute; reflexivity
+         end.
 Qed.
 
 (* 1 < 'a' has no value; neither has $l[0].x (a non-collection), nor length(3); $l[5] is undefined *)
